@@ -67,6 +67,16 @@ pub enum SOp {
     /// pending SIGCONT, whether or not the process is stopped (performed by
     /// `sigseq_*`)
     SigSeq(Vec<(u8, u8)>),
+    /// signals sent to a child that sleeps with default dispositions (USR1
+    /// ignored), each followed by wait() until nothing more is reported: steps
+    /// index into STOP TSTP CONT TERM KILL USR1 HUP (TSTP is not generated: its
+    /// effect on the real side depends on whether the process group is
+    /// orphaned). What `kill` returns and
+    /// which state changes `wait` reports (stopped by which signal, continued,
+    /// killed by which signal; ESRCH / ECHILD once the child is gone)
+    /// (performed by `childseq_*`; the real side waits, with a time limit, for
+    /// the state POSIX prescribes before it asks)
+    ChildSeq(Vec<u8>),
     /// a large write (pipe capacity questions are not compared: only used on
     /// regular files)
     BigWrite(u8),
@@ -153,6 +163,19 @@ pub fn generate(rng: &mut Rng, long: bool) -> SHist {
             29 if rng.bool() => SOp::Pipe,
             29 if rng.bool() => SOp::Limit(*rng.pick(&[3u8, 4, 5, 6, 8, 12])),
             29 if rng.bool() => SOp::Zombie(*rng.pick(&[0u8, 3, 7])),
+            29 if rng.bool() => {
+                let mut steps: Vec<u8> = (0..rng.range(2, 7)).map(|_| *rng.pick(&[0u8, 0, 0, 2, 2, 2, 3, 4, 5, 6])).collect();
+                // (TERM and HUP pending together in a stopped child: which one
+                // kills it when it is continued is unspecified - one kind only)
+                if let Some(f) = steps.iter().copied().find(|s| *s == 3 || *s == 6) {
+                    for s in &mut steps {
+                        if *s == 3 || *s == 6 {
+                            *s = f;
+                        }
+                    }
+                }
+                SOp::ChildSeq(steps)
+            }
             29 => {
                 let sig = |rng: &mut Rng| *rng.pick(&[0u8, 0, 0, 1, 2, 2, 2, 3, 4]);
                 let mut steps: Vec<(u8, u8)> = Vec::new();
@@ -203,7 +226,14 @@ fn errname(e: Errno) -> String {
 
 /// Issues the operations; one result line per operation. `base` is the
 /// directory the history started in (its name is hidden in `getcwd` results).
-pub fn run_ops<S>(sys: &S, h: &SHist, base: &str, zombie: &dyn Fn(u8) -> String, sigseq: &dyn Fn(&[(u8, u8)]) -> String) -> Vec<String>
+pub fn run_ops<S>(
+    sys: &S,
+    h: &SHist,
+    base: &str,
+    zombie: &dyn Fn(u8) -> String,
+    sigseq: &dyn Fn(&[(u8, u8)]) -> String,
+    childseq: &dyn Fn(&[u8]) -> String,
+) -> Vec<String>
 where
     S: Open
         + Close
@@ -427,6 +457,7 @@ where
             SOp::BigWrite(_) => "bigwrite: -".into(),
             SOp::Zombie(st) => format!("zombie: {}", zombie(*st)),
             SOp::SigSeq(steps) => format!("sigseq: {}", sigseq(steps)),
+            SOp::ChildSeq(steps) => format!("childseq: {}", childseq(steps)),
             SOp::IsExec(p) => {
                 let path = CString::new(PATHS[*p as usize]).unwrap();
                 format!("isexec: {}", sys.is_executable_file(&path))
@@ -517,7 +548,179 @@ pub fn run_virtual(h: &SHist) -> Vec<String> {
     sys.chdir(c"/base/work").ok();
     let zsys = sys.clone();
     let ssys = sys.clone();
-    run_ops(&sys, h, "/base/work", &move |st| zombie_virtual(&zsys, st), &move |steps| sigseq_virtual(&ssys, steps))
+    let csys = sys.clone();
+    run_ops(
+        &sys,
+        h,
+        "/base/work",
+        &move |st| zombie_virtual(&zsys, st),
+        &move |steps| sigseq_virtual(&ssys, steps),
+        &move |steps| childseq_virtual(&csys, steps),
+    )
+}
+
+const CHILDSEQ_NAMES: [&str; 7] = ["STOP", "TSTP", "CONT", "TERM", "KILL", "USR1", "HUP"];
+
+/// What POSIX prescribes for a sleeping child with default dispositions
+/// (USR1 ignored): 0 running, 1 stopped, 2 dead. Used by the real side to know
+/// what to wait for, never compared with anything.
+fn childseq_model(state: &mut u8, pending_fatal: &mut bool, step: u8) {
+    match (CHILDSEQ_NAMES[step as usize % 7], *state) {
+        (_, 2) => {}
+        ("KILL", _) => *state = 2,
+        ("STOP" | "TSTP", 0) => *state = 1,
+        ("CONT", 1) => *state = if *pending_fatal { 2 } else { 0 },
+        ("TERM" | "HUP", 0) => *state = 2,
+        ("TERM" | "HUP", 1) => *pending_fatal = true,
+        _ => {}
+    }
+}
+
+/// kill + wait-until-quiet for each step, generic over the system. `settle`
+/// is called between the two with the state the model expects (the real side
+/// waits for the kernel to get there).
+fn childseq_ops<S>(sys: &S, pid: yash_env::job::Pid, steps: &[u8], settle: &dyn Fn(u8)) -> String
+where
+    S: yash_env::system::SendSignal + yash_env::system::Wait + yash_env::system::Signals,
+{
+    use yash_env::job::{ProcessResult, ProcessState};
+    let sigs = [S::SIGSTOP, S::SIGTSTP, S::SIGCONT, S::SIGTERM, S::SIGKILL, S::SIGUSR1, S::SIGHUP];
+    let name = |n: yash_env::signal::Number| -> String {
+        sigs.iter().position(|s| *s == n).map_or_else(|| "OTHER".to_string(), |i| CHILDSEQ_NAMES[i].to_string())
+    };
+    let (mut state, mut pending_fatal) = (0u8, false);
+    let mut out: Vec<String> = Vec::new();
+    for st in steps {
+        let i = *st as usize % 7;
+        let k = match now(sys.kill(pid, Some(sigs[i]))) {
+            Some(Ok(())) => "ok".to_string(),
+            Some(Err(e)) => errname(e),
+            None => "pending".to_string(),
+        };
+        childseq_model(&mut state, &mut pending_fatal, *st);
+        settle(state);
+        let mut reports: Vec<String> = Vec::new();
+        for _ in 0..4 {
+            match sys.wait(pid) {
+                Ok(None) => break,
+                Ok(Some((_, ProcessState::Running))) => reports.push("continued".into()),
+                Ok(Some((_, ProcessState::Halted(ProcessResult::Stopped(n))))) => reports.push(format!("stopped:{}", name(n))),
+                Ok(Some((_, ProcessState::Halted(ProcessResult::Exited(e))))) => reports.push(format!("exited:{}", e.0)),
+                Ok(Some((_, ProcessState::Halted(ProcessResult::Signaled { signal, .. })))) => reports.push(format!("killed:{}", name(signal))),
+                Err(e) => {
+                    reports.push(errname(e));
+                    break;
+                }
+            }
+        }
+        out.push(format!("{}={k}[{}]", CHILDSEQ_NAMES[i], reports.join(",")));
+    }
+    out.join(" ")
+}
+
+/// `SOp::ChildSeq` on the simulated kernel.
+fn childseq_virtual(sys: &yash_env::system::r#virtual::VirtualSystem, steps: &[u8]) -> String {
+    use yash_env::job::Pid;
+    use yash_env::system::r#virtual::{Process, SIGUSR1, VirtualSystem};
+    use yash_env::system::{Disposition, SendSignal as _, Sigaction as _, Wait as _};
+    let pid = {
+        let mut st = sys.state.borrow_mut();
+        let pid = Pid(st.processes.keys().map(|p| p.0).max().unwrap_or(2) + 1);
+        let child = Process::fork_from(sys.process_id, st.processes.get(&sys.process_id).unwrap());
+        st.processes.insert(pid, child);
+        pid
+    };
+    let child = VirtualSystem {
+        state: std::rc::Rc::clone(&sys.state),
+        process_id: pid,
+    };
+    child.sigaction(SIGUSR1, Disposition::Ignore).ok();
+    let r = childseq_ops(sys, pid, steps, &|_| ());
+    // (whatever is left of the child is removed again)
+    let _ = now(sys.kill(pid, Some(yash_env::system::r#virtual::SIGKILL)));
+    let _ = sys.wait(pid);
+    sys.state.borrow_mut().processes.remove(&pid);
+    r
+}
+
+/// The same on the real kernel: the child sleeps in pause(); after each signal
+/// the parent polls /proc for the state the model expects (at most 0.5 s).
+fn childseq_real(sys: &yash_env::system::real::RealSystem, steps: &[u8]) -> String {
+    // (the history may have lowered the soft limit on open files, and the
+    // probe reads /proc: lifted for its duration, put back afterwards)
+    // SAFETY: plain libc calls in a single-threaded process
+    let lim = unsafe {
+        let mut lim: libc::rlimit = std::mem::zeroed();
+        libc::getrlimit(libc::RLIMIT_NOFILE, &mut lim);
+        let lifted = libc::rlimit { rlim_cur: lim.rlim_max, rlim_max: lim.rlim_max };
+        libc::setrlimit(libc::RLIMIT_NOFILE, &lifted);
+        lim
+    };
+    let r = childseq_real_inner(sys, steps);
+    // SAFETY: as above
+    unsafe {
+        libc::setrlimit(libc::RLIMIT_NOFILE, &lim);
+    }
+    r
+}
+
+fn childseq_real_inner(sys: &yash_env::system::real::RealSystem, steps: &[u8]) -> String {
+    // SAFETY: plain libc calls in a single-threaded process
+    let pid = unsafe {
+        let pid = libc::fork();
+        if pid == 0 {
+            for s in [libc::SIGTSTP, libc::SIGCONT, libc::SIGTERM, libc::SIGHUP, libc::SIGINT, libc::SIGQUIT] {
+                libc::signal(s, libc::SIG_DFL);
+            }
+            libc::signal(libc::SIGUSR1, libc::SIG_IGN);
+            let mut all: libc::sigset_t = std::mem::zeroed();
+            libc::sigfillset(&mut all);
+            libc::sigprocmask(libc::SIG_UNBLOCK, &all, std::ptr::null_mut());
+            // (tells the parent that the dispositions are in place)
+            libc::raise(libc::SIGSTOP);
+            loop {
+                libc::pause();
+            }
+        }
+        if pid > 0 {
+            let mut st = 0;
+            libc::waitpid(pid, &mut st, libc::WUNTRACED);
+            libc::kill(pid, libc::SIGCONT);
+            libc::waitpid(pid, &mut st, libc::WCONTINUED);
+        }
+        pid
+    };
+    if pid < 0 {
+        return "fork failed".into();
+    }
+    let letter = |pid: i32| -> Option<char> {
+        let stat = std::fs::read_to_string(format!("/proc/{pid}/stat")).ok()?;
+        stat.rsplit_once(") ")?.1.chars().next()
+    };
+    let settle = |want: u8| {
+        let deadline = std::time::Instant::now() + std::time::Duration::from_millis(500);
+        loop {
+            let ok = match (want, letter(pid)) {
+                (0, Some('S' | 'R')) => true,
+                (1, Some('T')) => true,
+                (2, Some('Z') | None) => true,
+                _ => false,
+            };
+            if ok || std::time::Instant::now() > deadline {
+                break;
+            }
+            std::thread::sleep(std::time::Duration::from_micros(200));
+        }
+    };
+    settle(0);
+    let r = childseq_ops(sys, yash_env::job::Pid(pid), steps, &settle);
+    // SAFETY: as above
+    unsafe {
+        libc::kill(pid, libc::SIGKILL);
+        let mut st = 0;
+        libc::waitpid(pid, &mut st, 0);
+    }
+    r
 }
 
 const SIGSEQ_NAMES: [&str; 5] = ["TSTP", "TTIN", "CONT", "USR1", "TERM"];
@@ -760,7 +963,7 @@ pub fn real_sys_main() -> ! {
         std::env::set_current_dir(&work).unwrap();
         sys.umask(Mode::from_bits_truncate(0o022));
         let base = work.to_string_lossy().into_owned();
-        all.push(run_ops(&sys, h, &base, &zombie_real, &sigseq_real));
+        all.push(run_ops(&sys, h, &base, &zombie_real, &sigseq_real, &|steps| childseq_real(&sys, steps)));
         // descriptors left open by the history are closed by hand: the next
         // history must start with the same free descriptors
         for fd in 3..64 {
